@@ -119,6 +119,8 @@ inline Op decode(const uint8_t* b, const Profile& p) {
       else if (pct(14, p.p_forbid)) { lo = 0; hi = 0; }   // RT_TIMES(0,0): forbidding, also when sequenced
       else if (hi == 0) hi = 1;
       if ((b[14] % 100) < p.p_bad_times && b[13] % 2) { lo = 2 + b[11] % 3; hi = lo - 1; }  // RT_TIMES(lo > hi)
+      // rarely: bounds that do not fit into 32 bits (2^32, 2^32 + 1), as upper bound alone or as both bounds
+      if (b[12] % 32 == 5 && hi != 0 && !(hi > 0 && lo > hi)) { hi = -2 - (b[11] % 2); if (b[11] % 8 == 0) lo = -2; }
       o.a[CA_LO] = lo; o.a[CA_HI] = hi;
       // matchers: overlapping on purpose
       static const int mkinds[] = {M_WILD, M_WILD, M_ANY, M_VALUE, M_VALUE, M_EQ, M_NE, M_LT, M_LE, M_GT, M_GE, M_VALUE};
